@@ -114,6 +114,8 @@ def judge(case, acc):
         t.name = case['names'][str(t.id)]
         if str(t.id) in case['sections']:
             t.gantt_section = case['sections'][str(t.id)]
+        for k, v in (case.get('custom') or {}).get(str(t.id), {}).items():
+            setattr(t, k, v)
         if case.get('styles') and t.id % 3 == 0:
             t.gantt_bar_style = {'fill': 'red'}
             t.network_bar_style = {'fill': '#f9f'}
@@ -317,7 +319,14 @@ def gen_case(rnd):
             if rnd.random() < 0.6:
                 sections[str(t['id'])] = rnd.choice(['S1', 'S2', 'Phase A'])
     now = rnd.choice([REAL(2020, 1, 1), sc['date'] + td(days=2, hours=10), REAL(2030, 1, 1)])
-    return {'kind': 'viz', 'sched': sc, 'names': names, 'sections': sections, 'now': now, 'styles': rnd.random() < 0.3}
+    custom = {}
+    if rnd.random() < 0.4:
+        # user attributes whose names resemble renderer keys (different case) or look like markup
+        for t in sc['tasks']:
+            if rnd.random() < 0.5:
+                custom[str(t['id'])] = {rnd.choice(['ID', 'Parent', 'Type', 'Progress', 'Text', 'note', 'Start_date', 'End_Date', 'Open', 'Id']):
+                                        rnd.choice(['JIRA-101', '25%', 'x', '</script>', 7, None])}
+    return {'kind': 'viz', 'sched': sc, 'names': names, 'sections': sections, 'now': now, 'styles': rnd.random() < 0.3, 'custom': custom}
 
 
 def run_shard(prop, tier, seed, shard, nshards, budget, acc):
